@@ -26,6 +26,10 @@ func main() {
 		switch *layer {
 		case "tracer":
 			driveTracer(*seed, *n, *size, em)
+		case "diff":
+			driveDiff(*seed, *n, *size, em)
+		case "calltracer":
+			driveCallTracer(*seed, *n, *size, em)
 		case "frame":
 			driveFrame(*seed, *n, *size, em)
 		case "cancun":
